@@ -107,3 +107,108 @@ func VfCopyRoundTrip() {
 		check("bkt", "k", ctype, mval, "source")
 	}
 }
+
+// VfCopyFromHistory: C09 – CopyObject reads its source through the version history like GET does: in a versioning-enabled
+// bucket the key holds V1, optionally V2, optionally a delete marker on top. A copy without version id yields the newest
+// version's bytes, or fails when the key reads as missing; a copy of ?versionId=V1 yields V1's bytes whatever came after;
+// a copy of the marker's id fails. The history of the source key is unchanged by the copies.
+func VfCopyFromHistory() {
+	vfWorld()
+	p := vfNewPosix(vfConfig{versioning: true})
+	vfMustBucket(p, "bkt")
+	zzvf.Assert(p.PutBucketVersioning(vfCtx(), "bkt", types.BucketVersioningStatusEnabled) == nil, "setup-enable-versioning")
+	key, dst := "k", "d"
+	one := int64(1)
+	b1, b2 := zzvf.BytesN("first_body", 1), zzvf.BytesN("second_body", 1)
+	out, err := p.PutObject(vfCtx(), s3response.PutObjectInput{Bucket: vfStr("bkt"), Key: &key, Body: bytes.NewReader(b1), ContentLength: &one})
+	zzvf.Assert(err == nil, "setup-first-version")
+	v1 := out.VersionID
+	newest, newestID := b1, v1
+	if zzvf.Choice("second_version", 2) == 1 {
+		out, err = p.PutObject(vfCtx(), s3response.PutObjectInput{Bucket: vfStr("bkt"), Key: &key, Body: bytes.NewReader(b2), ContentLength: &one})
+		zzvf.Assert(err == nil, "setup-second-version")
+		newest, newestID = b2, out.VersionID
+	}
+	marker := ""
+	if zzvf.Choice("delete_marker_on_top", 2) == 1 {
+		d, err := p.DeleteObject(vfCtx(), &s3.DeleteObjectInput{Bucket: vfStr("bkt"), Key: &key})
+		zzvf.Assert(err == nil && d.VersionId != nil, "setup-delete-marker")
+		if err != nil || d.VersionId == nil {
+			return
+		}
+		marker = *d.VersionId
+	}
+	readDst := func() (bool, []byte) {
+		g, err := p.GetObject(vfCtx(), &s3.GetObjectInput{Bucket: vfStr("bkt"), Key: &dst, Range: vfStr("")})
+		if err != nil {
+			return false, nil
+		}
+		b, _ := io.ReadAll(g.Body)
+		return true, b
+	}
+	switch zzvf.Choice("copy_source", 5) {
+	case 0: // no version id
+		_, err := p.CopyObject(vfCtx(), s3response.CopyObjectInput{Bucket: vfStr("bkt"), Key: &dst, CopySource: vfStr("bkt/k"), ExpectedBucketOwner: vfStr(""), MetadataDirective: types.MetadataDirectiveCopy})
+		if marker != "" {
+			zzvf.Reach("copy-of-a-deleted-key")
+			zzvf.Assert(err != nil, "copy-of-a-key-that-reads-as-missing-fails")
+			ok, _ := readDst()
+			zzvf.Assert(!ok, "failed-copy-creates-no-object")
+		} else {
+			zzvf.Assert(err == nil, "copy-of-the-current-version-succeeds")
+			ok, b := readDst()
+			zzvf.Assert(ok && zzvf.BytesEq(b, newest), "copy-without-id-yields-the-newest-version")
+		}
+	case 1: // the first version by id
+		src := "bkt/k?versionId=" + v1
+		_, err := p.CopyObject(vfCtx(), s3response.CopyObjectInput{Bucket: vfStr("bkt"), Key: &dst, CopySource: &src, ExpectedBucketOwner: vfStr(""), MetadataDirective: types.MetadataDirectiveCopy})
+		zzvf.Reach("copy-by-version-id")
+		zzvf.Assert(err == nil, "copy-of-a-version-by-id-succeeds")
+		ok, b := readDst()
+		zzvf.Assert(ok && zzvf.BytesEq(b, b1), "copy-by-id-yields-that-version's-bytes")
+	case 2: // the newest object version by id
+		src := "bkt/k?versionId=" + newestID
+		_, err := p.CopyObject(vfCtx(), s3response.CopyObjectInput{Bucket: vfStr("bkt"), Key: &dst, CopySource: &src, ExpectedBucketOwner: vfStr(""), MetadataDirective: types.MetadataDirectiveCopy})
+		zzvf.Assert(err == nil, "copy-of-a-version-by-id-succeeds")
+		ok, b := readDst()
+		zzvf.Assert(ok && zzvf.BytesEq(b, newest), "copy-by-id-yields-that-version's-bytes")
+	case 4: // UploadPartCopy reads its source the same way
+		up, err := p.CreateMultipartUpload(vfCtx(), s3response.CreateMultipartUploadInput{Bucket: vfStr("bkt"), Key: &dst})
+		zzvf.Assert(err == nil, "setup-upload")
+		pn := int32(1)
+		src := "bkt/k"
+		byMarkerID := marker != "" && zzvf.Choice("part_source_is_the_marker_id", 2) == 1
+		if byMarkerID {
+			src = "bkt/k?versionId=" + marker
+		}
+		_, err = p.UploadPartCopy(vfCtx(), &s3.UploadPartCopyInput{Bucket: vfStr("bkt"), Key: &dst, UploadId: &up.UploadId, PartNumber: &pn,
+			CopySource: &src, CopySourceRange: vfStr(""), ExpectedBucketOwner: vfStr("")})
+		pex, pdata, _, _ := vfObjectState(vfPartPath("bkt", dst, up.UploadId, pn))
+		if marker != "" {
+			zzvf.Reach("part-copy-of-a-deleted-key")
+			zzvf.Assert(err != nil, "part-copy-of-a-key-that-reads-as-missing-fails")
+			zzvf.Assert(!pex, "failed-part-copy-stores-no-part")
+		} else {
+			zzvf.Assert(err == nil, "part-copy-of-the-current-version-succeeds")
+			zzvf.Assert(pex && zzvf.BytesEq(pdata, newest), "part-copy-without-id-yields-the-newest-version")
+		}
+	case 3: // the delete marker by id
+		if marker == "" {
+			return
+		}
+		src := "bkt/k?versionId=" + marker
+		_, err := p.CopyObject(vfCtx(), s3response.CopyObjectInput{Bucket: vfStr("bkt"), Key: &dst, CopySource: &src, ExpectedBucketOwner: vfStr(""), MetadataDirective: types.MetadataDirectiveCopy})
+		zzvf.Assert(err != nil, "copy-of-a-delete-marker-fails")
+		ok, _ := readDst()
+		zzvf.Assert(!ok, "failed-copy-creates-no-object")
+	}
+	// the source history is what it was
+	g, err := p.GetObject(vfCtx(), &s3.GetObjectInput{Bucket: vfStr("bkt"), Key: &key, VersionId: &v1, Range: vfStr("")})
+	zzvf.Assert(err == nil, "source-version-still-retrievable")
+	if err == nil {
+		b, _ := io.ReadAll(g.Body)
+		zzvf.Assert(zzvf.BytesEq(b, b1), "source-version-unchanged")
+	}
+	_, err = p.GetObject(vfCtx(), &s3.GetObjectInput{Bucket: vfStr("bkt"), Key: &key, Range: vfStr("")})
+	zzvf.Assert((err != nil) == (marker != ""), "source-key-reads-as-before")
+}
